@@ -1,6 +1,8 @@
 package main
 
 import (
+	"context"
+	"encoding/json"
 	"fmt"
 	"math/rand"
 	"path/filepath"
@@ -16,6 +18,7 @@ import (
 	"sigs.k8s.io/controller-runtime/pkg/client/fake"
 	"sigs.k8s.io/controller-runtime/pkg/webhook/admission"
 	"sigs.k8s.io/yaml"
+	admissionv1 "k8s.io/api/admission/v1"
 
 	configv1beta1 "github.com/kubeflow/katib/pkg/apis/config/v1beta1"
 	commonv1beta1 "github.com/kubeflow/katib/pkg/apis/controller/common/v1beta1"
@@ -49,6 +52,22 @@ func ctShow(c corev1.Container) string {
 		ms = append(ms, [2]string{m.Name, m.MountPath})
 	}
 	return strings.Join([]string{hx(c.Name), hx(c.Image), showStrsGo(c.Command), showStrsGo(c.Args), showStrsGo(env), showPairsGo(ms)}, "/")
+}
+
+func podShow(m *corev1.Pod) string {
+	cts := []string{}
+	for _, ct := range m.Spec.Containers {
+		cts = append(cts, ctShow(ct))
+	}
+	mv := []string{}
+	for _, v := range m.Spec.Volumes {
+		mv = append(mv, v.Name)
+	}
+	pns := "none"
+	if m.Spec.ShareProcessNamespace != nil {
+		pns = b01(*m.Spec.ShareProcessNamespace)
+	}
+	return fmt.Sprintf("labels=%s cts=%s vols=%s pns=%s", labelStr(m.Labels), strings.Join(cts, ";"), showStrsGo(mv), pns)
 }
 
 func mapPairs(m map[string]string) [][2]string {
@@ -265,20 +284,46 @@ func init() {
 				tags = append(tags, "out=err-"+cls)
 				return
 			}
-			cts := []string{}
-			for _, ct := range m.Spec.Containers {
-				cts = append(cts, ctShow(ct))
-			}
-			mv := []string{}
-			for _, v := range m.Spec.Volumes {
-				mv = append(mv, v.Name)
-			}
-			pns := "none"
-			if m.Spec.ShareProcessNamespace != nil {
-				pns = b01(*m.Spec.ShareProcessNamespace)
-			}
-			impl = fmt.Sprintf("ok labels=%s cts=%s vols=%s pns=%s", labelStr(m.Labels), strings.Join(cts, ";"), showStrsGo(mv), pns)
+			impl = "ok " + podShow(m)
 		}()
+		// the same pod through the real admission handler: JSON in, JSON patch out
+		if impl != "panic" {
+			hres := ""
+			func() {
+				defer func() {
+					if e := recover(); e != nil {
+						hres = "panic"
+					}
+				}()
+				raw, _ := json.Marshal(p)
+				resp := inj.Handle(context.TODO(), admission.Request{AdmissionRequest: admissionv1.AdmissionRequest{Namespace: ns, Operation: admissionv1.Create, Object: runtime.RawExtension{Raw: raw}}})
+				if !resp.Allowed {
+					hres = "denied"
+					return
+				}
+				out, err := applyPatch(raw, resp)
+				if err != nil {
+					hres = "patch-does-not-apply"
+					return
+				}
+				got := &corev1.Pod{}
+				if err := json.Unmarshal(out, got); err != nil {
+					hres = "patched-pod-unreadable"
+					return
+				}
+				hres = "ok " + podShow(got)
+			}()
+			want := impl
+			if strings.HasPrefix(impl, "err ") {
+				want = "denied"
+			}
+			if strings.Join(strings.Fields(hres), " ") != strings.Join(strings.Fields(want), " ") {
+				impl += " HANDLE=" + strings.ReplaceAll(hres, " ", "_")
+				tags = append(tags, "HANDLE-DIFFERS")
+			} else {
+				tags = append(tags, "handle-agrees")
+			}
+		}
 		return Case{Ops: []string{strings.Join(strings.Fields(op), " ")}, Impl: []string{strings.Join(strings.Fields(impl), " ")}, Tags: tags}
 	}
 }
@@ -398,6 +443,29 @@ func c12Required(rng *rand.Rand) Case {
 			impl = "none"
 		}
 	}()
+	// the handler's decision for the same pod: not a Trial's pod -> allowed without patch; lookup error -> refused
+	// (the Trials of these ownership cases are bare objects, so a required mutation is not carried out here)
+	if impl == "none" || impl == "error" {
+		hres := ""
+		func() {
+			defer func() {
+				if e := recover(); e != nil {
+					hres = "panic"
+				}
+			}()
+			raw, _ := json.Marshal(p)
+			resp := inj.Handle(context.TODO(), admission.Request{AdmissionRequest: admissionv1.AdmissionRequest{Namespace: ns, Operation: admissionv1.Create, Object: runtime.RawExtension{Raw: raw}}})
+			switch {
+			case impl == "none" && (!resp.Allowed || len(resp.Patches) != 0):
+				hres = "unrelated-pod-not-admitted-unmodified"
+			case impl == "error" && resp.Allowed:
+				hres = "lookup-error-but-allowed"
+			}
+		}()
+		if hres != "" {
+			impl += " HANDLE=" + hres
+		}
+	}
 	tags = append(tags, "required="+impl)
 	return Case{Ops: []string{op}, Impl: []string{impl}, Tags: tags}
 }
